@@ -282,6 +282,8 @@ def _ev(e, env):
         return tuple(_ev(x, env) for x in e.elts)
     if isinstance(e, ast.UnaryOp) and isinstance(e.op, ast.Not):
         return not _ev(e.operand, env)
+    if isinstance(e, ast.UnaryOp) and isinstance(e.op, ast.USub):
+        return -_ev(e.operand, env)
     if isinstance(e, ast.BoolOp):
         vals = [_ev(v, env) for v in e.values]
         if isinstance(e.op, ast.And):
